@@ -625,7 +625,9 @@ def descr_tables():
     def p_flags_builder(code):
         return elfgen.build(cls=64, le=True, machine=62, etype=2, sections=[elfgen.Sec('.text', 1, flags=6, data=b'\x90' * 8)],
                             segments=[elfgen.Seg(type=1, flags=code, offset=0, vaddr=0, filesz=8, memsz=8, align=1)])[0]
-    T.append(('p_flags', '-l', [(str(i), i) for i in range(8)], p_flags_builder, lambda out, code: first_phdr_line(out)))
+    # the three permission bits alone and beside bits of the OS range (Solaris PF_SUNW_FAILURE ...), the processor range and the rest
+    pf = list(range(8)) + [0x00100005, 0x0ff00006, 0x08000007, 0x10000005, 0xf0000006, 0x00000015, 0x000ffff9, 0xfffffff8, 0x00100000, 0xffffffff]
+    T.append(('p_flags', '-l', [('%#x' % i, i) for i in pf], p_flags_builder, lambda out, code: first_phdr_line(out)))
 
     def sym_builder(field, machine=62):
         def b(code):
@@ -1403,6 +1405,13 @@ def run_inprocess(idx, rng, sh):
                 img, desc = gen(r2)
                 files.append((s.write('f%d_%d_%s.elf' % (j, v, name), img), options[(idx + v) % len(options)] if len(options) > 1 and name != 'dumps' else options[0]))
         tabs = dw_tables()
+        # the same frame instructions on two machines: register names belong to the file, not to the process
+        cfa_pair = []
+        for t in tabs:
+            if t[0] in ('DW_CFA/x86-64', 'DW_CFA/aarch64'):
+                img, _ = t[2]()
+                cfa_pair.append((s.write('cfa_%s.elf' % t[0].split('/')[1], img), '--debug-dump=frames-interp'))
+        files += cfa_pair
         for j in range(2):
             t = tabs[(idx * 2 + j) % len(tabs)]
             img, _ = t[2]()
@@ -1424,6 +1433,8 @@ def run_inprocess(idx, rng, sh):
         rng.shuffle(rest)
         seq += rest
         seq += [files[1], files[0]] * 4
+        if len(cfa_pair) == 2:
+            seq += (cfa_pair if idx % 2 else cfa_pair[::-1]) * 2
         try:
             p = subprocess.run([sys.executable, os.path.join(VERIF_DIR, 'vf', 'inproc_driver.py'), REPO], input=json.dumps(seq).encode(),
                                stdout=subprocess.PIPE, stderr=subprocess.PIPE, timeout=900)
